@@ -4,7 +4,6 @@
    (gen/FormulasPairs.v): projection = Abel(source) for every r in range. *)
 From Coq Require Import Reals List Arith Bool ZArith QArith Qreals Lia Lra Psatz.
 From Coquelicot Require Import Coquelicot.
-From Interval Require Import Tactic.
 From PA Require Import model.Poly model.AbelPoly proofs.AbelPolyAlg proofs.AbelPolyInt proofs.PolyTop proofs.PolyPiecewise gen.FormulasPairs.
 Import ListNotations.
 Open Scope R_scope.
